@@ -368,6 +368,19 @@ class Taint:
                         c = max(self.op_class(f, t["args"][0]), self.op_class(f, t["args"][1]))
                     elif re.search(r"::(checked_|saturating_|wrapping_)\w+$", cal):
                         c = max([self.op_class(f, a) for a in t["args"]] or [0])
+                    if re.search(r"(Option::<T>|Result::<T, E>)::(map|and_then|map_or|map_or_else|filter|is_some_and|is_ok_and|inspect)$", cal) and len(t["args"]) >= 2:
+                        # `opt.map(|v| ...)`: the payload is the closure's parameter, the closure's answer is the payload of the result
+                        from mir import closure_of_origin
+                        cid = closure_of_origin(f.origin_op(t["args"][-1]))
+                        g_ = prog.fn(cid) if cid else None
+                        if g_ is not None:
+                            ac = self.op_class(f, t["args"][0])
+                            if ac and g_.arg_count >= 2:
+                                self.up(self.loc, (g_.id, 2), ac)
+                            if not cal.endswith("::filter") and not cal.endswith("::inspect"):
+                                c = max(c, self.loc[(g_.id, 0)])
+                            else:
+                                c = max(c, ac)
                     tg, _ = prog.call_targets(f, t)
                     for gid in tg:
                         g = prog.fn(gid)
